@@ -8,6 +8,8 @@ Oracle  : constructor succeeds iff every node of S u ends(R) has an outgoing edg
 """
 import itertools
 
+from .. import lib
+
 from ..common import call, chunks
 from ..runner import deadline_passed
 
@@ -104,8 +106,8 @@ def exp_label(L, s):
 
 
 def snap(K):
-    return (sorted(K._next.keys(), key=repr), sorted(((s, d) for s in K._next for d in K._next[s]), key=repr),
-            sorted(((s, sorted(K._labels[s], key=repr)) for s in K._labels), key=repr),
+    return (sorted(lib.next_map(K).keys(), key=repr), sorted(((s, d) for s in lib.next_map(K) for d in lib.next_map(K)[s]), key=repr),
+            sorted(((s, sorted(lib.label_map(K)[s], key=repr)) for s in lib.label_map(K)), key=repr),
             sorted(K.S0, key=repr))
 
 
@@ -204,8 +206,8 @@ def check(S, S0, R, L, acc, naming='ints'):
         C = r[1]
         if type(C) is not Kripke or snap(C) != before:
             bad('clone', before, snap(C))
-        elif any(C._labels[s] is K._labels[t] for s in nodes for t in nodes) or \
-                any(C._next[s] is K._next[t] for s in nodes for t in nodes) or C.S0 is K.S0:
+        elif any(lib.label_map(C)[s] is lib.label_map(K)[t] for s in nodes for t in nodes) or \
+                any(lib.next_map(C)[s] is lib.next_map(K)[t] for s in nodes for t in nodes) or C.S0 is K.S0:
             bad('clone-shares-sets')
         else:
             if [C.labels(s) for s in sorted(nodes, key=repr)] != [K.labels(s) for s in sorted(nodes, key=repr)]:
@@ -256,7 +258,7 @@ def check(S, S0, R, L, acc, naming='ints'):
                        sorted(expS0 & set(V), key=repr))
                 if type(Sb) is not Kripke or snap(Sb) != exp:
                     bad('substructure', exp, snap(Sb), V=sorted(Vs, key=repr))
-                elif any(Sb._labels[s] is K._labels[t] for s in V for t in nodes):
+                elif any(lib.label_map(Sb)[s] is lib.label_map(K)[t] for s in V for t in nodes):
                     bad('substructure-shares-label-sets', V=sorted(Vs, key=repr))
                 if Vs != Vcopy:
                     bad('substructure-modifies-V', V=sorted(Vcopy, key=repr))
